@@ -120,6 +120,17 @@ CLAIMED = {
         design="§4 C06, §9", technique="Coq proof of DCD (extended rationals) and control-logic models + trace inclusion + end-to-end channel rig (test)",
         note="Partial by design (DESIGN §9).  Rounding, signed zeros and float overflow are not modelled.  One known finding (receiver coasts on "
              "garbage frames after an earlier transmission with a short gap and stays deaf)."),
+    "C19": dict(
+        text="Machine-checked proof (Coq) over an arbitrary commutative ring, for every tap/coefficient list and every input sequence of any length: "
+             "the FIR filter (circular history as written) outputs the convolution from the zero state, reset() restores it from any state, it is linear "
+             "and time-invariant; the IIR filter realises its difference equation (the code never reads a[0]; the repository's three coefficient sets have "
+             "a0 = 1 exactly); the sliding DFT recurrence equals the DFT bin of the last N samples when w^N = 1 (conjugate bin, equal magnitude), NSlidingDFT "
+             "= per-bin SlidingDFT, and the DCD configuration satisfies N*f = 0 mod SampleRate; by exact dyadic arithmetic on the regenerated literals: all "
+             "four RRC tables are symmetric about their peak and every TX x RX cascade has symbol-spaced side taps < 0.5 % each and < 2 % in sum; the table "
+             "copies are consistent.  Floating-point rounding is TESTED within stated tolerances, not verified.",
+        design="§4 C19", technique="Coq proof (ring-generic induction; exact integer arithmetic on regenerated dyadic tables) + tolerance differential vs the float/double code",
+        note=PROOF_NOTE + "  The theorems are exact-arithmetic statements; that the float/double instantiations stay within the stated tolerance of the exact model, "
+             "and that std::exp yields an N-th root of unity to rounding, is tested only."),
 }
 
 NOT_YET = {}
